@@ -36,11 +36,11 @@ package helpers
 
 //@ func IsMetadata
 //@ params data
-//@ props C14 C03
+//@ props C14 C03 C01
 //@ reveal isMeta
-//@ ensures.prefix[C14,C03] result == isMeta(data)
+//@ ensures.prefix[C14,C03,C01] result == isMeta(data)
 // the reserved key spaces are the documented ones: a wider prefix would withhold user documents
-//@ ensures.reserved_key_spaces[C14,C03] Prefix == "_connector:cbgo:" && TxnPrefix == "_txn:"
+//@ ensures.reserved_key_spaces[C14,C03,C01] Prefix == "_connector:cbgo:" && TxnPrefix == "_txn:"
 //@ modifies nothing
 
 // Size strings. Strings and floats are uninterpreted here: the contract fixes which substring is parsed,
@@ -69,3 +69,18 @@ package helpers
 //@ ensures.value[C17] result == resolveUnion(input)
 //@ panics.bad_size[C17] typeis(input, string) && !parseintok(as(input, string), 10, 64) && sizeBad(as(input, string))
 //@ modifies nothing
+
+// Retry reports failure when every attempt failed (the last error), success only when an attempt succeeded, and
+// never asks more often than allowed: a dead peer cannot look alive (C10).
+//@ func Retry
+//@ params f attempts sleep
+//@ props C10
+//@ loop 1
+//@   invariant.attempts_so_far 0 <= i && (i == 0 || i <= attempts) && dcalls("var:f") == i
+//@   invariant.all_failed_so_far (i == 0 ==> err == nil) && (i > 0 ==> err != nil && err == dret("var:f", i - 1, 0))
+//@   modifies calls("var:f"), calls("time.Sleep")
+//@ ensures.success_means_an_attempt_succeeded[C10] result == nil && attempts > 0 ==> dcalls("var:f") >= 1 && dret("var:f", dcalls("var:f") - 1, 0) == nil
+//@ ensures.failure_is_the_last_error[C10] result != nil ==> dcalls("var:f") == attempts && result == dret("var:f", attempts - 1, 0)
+//@ ensures.no_more_than_allowed[C10] attempts > 0 ==> dcalls("var:f") <= attempts
+//@ ensures.every_failure_is_reported[C10] attempts > 0 && (forall j int :: 0 <= j && j < dcalls("var:f") ==> dret("var:f", j, 0) != nil) ==> result != nil
+//@ modifies calls("var:f"), calls("time.Sleep")
